@@ -9,6 +9,7 @@ import (
 	"net"
 	"os"
 	"runtime"
+	"runtime/debug"
 	"sync"
 	"sync/atomic"
 	"testing"
@@ -142,10 +143,13 @@ type c11run struct {
 	lenient    map[string]bool
 	classes    map[string]bool
 
-	ids       []uint32 // the case's ids plus, if needed, the barrier connection
-	syncConn  int      // index of the barrier connection (0 = none)
-	writeTrig map[int64]chan struct{}
-	stale     []*staleSet
+	ids        []uint32 // the case's ids plus, if needed, the barrier connection
+	syncConn   int      // index of the barrier connection (0 = none)
+	writeTrig  map[int64]chan struct{}
+	stale      []*staleSet
+	lateIDs    *idAllocator
+	canary     int // index of the canary connection (0 = none)
+	canaryDone [2]chan struct{}
 
 	opts        [2]C11MuxOpt
 	pending     [2]atomic.Bool  // the mux is blocked and Unblock has not been called yet
@@ -291,6 +295,12 @@ func expectedFrames(sizes []int) []frameRef {
 
 func runC11Mux(c C11Case) (ev.Outcome, bool) {
 	defer settleGoroutines(runtime.NumGoroutine())
+	if c.Opts[0].FdTrunk || c.Opts[1].FdTrunk {
+		// a descriptor that is merely forgotten gets closed by a finalizer whenever the garbage
+		// collector happens to run; "promptly" must not depend on that: no collection while the
+		// case runs (its allocations are bounded)
+		defer debug.SetGCPercent(debug.SetGCPercent(-1))
+	}
 	r := &c11run{c: c, poke: make(chan struct{}, 1), trigC: make(chan struct{}), anyErrC: make(chan struct{}),
 		primaryDoneC: make(chan struct{}), writersDoneC: make(chan struct{}), forceC: make(chan struct{}), lenient: map[string]bool{}, classes: map[string]bool{}}
 	f := c.Failure
@@ -358,6 +368,12 @@ func runC11Mux(c C11Case) (ev.Outcome, bool) {
 			r.ids = append(r.ids, id)
 		}
 	}
+	if len(c.Late) > 0 {
+		// a canary connection, never used and never closed individually: when a Read on it fails
+		// the multiplexer of that end has closed its connections
+		r.canary = len(r.ids)
+		r.ids = append(r.ids, newIDAllocator(r.ids).fresh())
+	}
 	r.opts = c.Opts
 	if c.Blocked {
 		for sd := 0; sd < 2; sd++ {
@@ -368,6 +384,7 @@ func runC11Mux(c C11Case) (ev.Outcome, bool) {
 	for sd := 0; sd < 2; sd++ {
 		po.blocked[sd] = r.opts[sd].Blocked
 		po.omitQLen[sd] = r.opts[sd].OmitQLen
+		po.fdTrunk[sd] = r.opts[sd].FdTrunk
 		r.pending[sd].Store(r.opts[sd].late())
 	}
 	r.p = connectPairOpts(po)
@@ -379,6 +396,21 @@ func runC11Mux(c C11Case) (ev.Outcome, bool) {
 	}
 	for s := 0; s < 2; s++ {
 		r.observed[s] = make([]atomic.Bool, len(r.ids))
+	}
+	if r.canary != 0 {
+		for sd := 0; sd < 2; sd++ {
+			r.canaryDone[sd] = make(chan struct{})
+			go func(cn net.Conn, done chan struct{}) {
+				defer close(done)
+				defer func() { _ = recover() }()
+				buf := make([]byte, 64)
+				for {
+					if _, err := cn.Read(buf); err != nil {
+						return
+					}
+				}
+			}(r.p.conns[sd][r.canary], r.canaryDone[sd])
+		}
 	}
 
 	hookTrigger := verifhook.Enabled && f.HookPoint != "" && (f.Kind == "close_mux" || f.Kind == "close_conn")
@@ -566,16 +598,24 @@ func runC11Mux(c C11Case) (ev.Outcome, bool) {
 			}
 			r.snapshotActivity()
 		}
+		if exited {
+			r.lateOpens("after_failure") // both ends have failed by themselves or were closed
+		}
 		r.closeMux(c.Final.Side, c.Final.Closers, c.Final.Repeat, "final")
 		if !exited && r.hang == "" {
 			r.markFailure()
-			r.waitSettled(allDone, primDone, &stackDump)
+			if r.waitSettled(allDone, primDone, &stackDump) == settledExited {
+				r.lateOpens("after_failure") // one end closed locally, the other has noticed it
+			}
 		}
 		if r.hang == "" {
 			r.closeMux(1-c.Final.Side, 1, 1, "cleanup")
 		}
 		if r.hang == "" {
 			r.probes()
+		}
+		if r.hang == "" {
+			r.lateOpens("at_end")
 		}
 		if r.hang == "" {
 			r.drainStale()
@@ -1083,6 +1123,12 @@ func (r *c11run) verdict(stackDump string) (ev.Outcome, bool) {
 		}
 		if r.opts[sd].OmitQLen {
 			add("default_queue_length_option_omitted")
+		}
+		if r.opts[sd].FdTrunk {
+			add("trunk_from_descriptor")
+			if c.Failure.Side == sd && (c.Failure.Kind == "close_mux" || c.Failure.Kind == "overflow") {
+				add("descriptor_trunk_end_fails_first")
+			}
 		}
 	}
 	r.failMu.Lock()
